@@ -193,8 +193,13 @@ def gen(rng, shard, nshards, keys_per_set, quick):
                     step += 1
                     continue
                 sig = R.sign(I, SEED, tree, q, C, msg)
-                lines.append(T_ + "sign %s %s %s" % (kid, C.hex(), hx(msg)))
-                exp.append("OK S " + sig.hex())
+                if rng.randrange(8) == 0:
+                    lines.append(T_ + "sign_st %s %s %s" % (kid, C.hex(), hx(msg)))
+                    exp.append("OK S " + sig.hex() + " CHANGED")
+                    cl.add("state-advances")
+                else:
+                    lines.append(T_ + "sign %s %s %s" % (kid, C.hex(), hx(msg)))
+                    exp.append("OK S " + sig.hex())
                 sigs.append((sig, msg, q))
                 lines.append(T_ + "verify %s %s %s" % (kid, sig.hex(), hx(msg)))
                 exp.append("OK T")
@@ -205,6 +210,11 @@ def gen(rng, shard, nshards, keys_per_set, quick):
             for _ in range(4):
                 lines.append(T_ + "sign %s %s %s" % (kid, rb(rng, R.n).hex(), hx(rb(rng, 5))))
                 exp.append("OK N")
+            # ... and the refused calls leave the key state (its Debug form is the only public view of it) unchanged
+            for _ in range(3):
+                lines.append(T_ + "sign_st %s %s %s" % (kid, rb(rng, R.n).hex(), hx(rb(rng, 5))))
+                exp.append("OK N SAME")
+            cl.add("exhausted-state-unchanged")
             cl.add("exhausted-returns-none")
             for (sig, msg, qq) in rng.sample(sigs, min(4, len(sigs))):
                 lines.append(T_ + "verify %s %s %s" % (kid, sig.hex(), hx(msg)))
@@ -283,7 +293,7 @@ def main(argv):
         # distinct: count distinct request lines rather than whole histories
         rep.extra["keys"] = keys * 4
         req = ["fault-injected", "all-leaves-used", "exhausted-returns-none", "alter:other-message", "alter:q-field", "alter:chain-value",
-               "alter:path-node", "alter:length+-1", "alter:other-leaf-index", "alter:C-field", "alter:lms-type", "alter:ots-type", "alter:message-bit-flipped", "message-length-on-block-boundary"]
+               "alter:path-node", "alter:length+-1", "alter:other-leaf-index", "alter:C-field", "alter:lms-type", "alter:ots-type", "alter:message-bit-flipped", "message-length-on-block-boundary", "exhausted-state-unchanged", "state-advances"]
         req += [s + ":life" for s in SETS]
         rep.require(*req)
     except Inconclusive as e:
